@@ -8,6 +8,8 @@
 #include <asl/StreamBuffer.h>
 #include <asl/File.h>
 #include <asl/Socket.h>
+#include <asl/Stack.h>
+#include <asl/Queue.h>
 #include <sys/types.h>
 #include <sys/socket.h>
 #include <sys/stat.h>
@@ -231,6 +233,44 @@ static void wCharBuf(StreamBuffer& s, const std::string& d)
 	C(1) C(2) C(3) C(4) C(5) C(6) C(7) C(8) C(9) C(10) C(11) C(12) C(13) C(14) C(15) C(16)
 #undef C
 	}
+}
+
+// objects DERIVED from Array<T> (Stack<T>, Queue<T>, StreamBuffer) written to / read from File and Socket
+template <class S, class C, class T> static void wDerivedT(S& s, const std::string& blob)
+{
+	C o;
+	Array<T>& base = o;
+	fillArray(base, blob);
+	std::string before = dumpArray(base);
+	s << (const C&)o;
+	if (dumpArray(base) != before) argFault = "err array-argument-modified-by-the-write " + dumpArray(base);
+}
+
+template <class S> static bool wDerived(S& s, const std::string& cls, const std::string& ty, const std::string& blob)
+{
+#define X(n, T) if (ty == n) { if (cls == "stack") wDerivedT<S, Stack<T>, T>(s, blob); else wDerivedT<S, Queue<T>, T>(s, blob); return true; }
+	FOR_TYPES(X)
+#undef X
+	return false;
+}
+
+template <class R, class C, class T> static std::string rDerivedT(R& r, int n)
+{
+	C o;
+	Array<T>& base = o;
+	base = Array<T>(n);
+	if (n) memset((void*)&base[0], 0, n * sizeof(T));
+	r >> o;
+	if (base.length() != n) return "err array-length-changed-to-" + str(base.length());
+	return dumpArray(base);
+}
+
+template <class R> static std::string rDerived(R& r, const std::string& cls, const std::string& ty, int n)
+{
+#define X(nm, T) if (ty == nm) return cls == "stack" ? rDerivedT<R, Stack<T>, T>(r, n) : rDerivedT<R, Queue<T>, T>(r, n);
+	FOR_TYPES(X)
+#undef X
+	return "bad-op";
 }
 
 // array variables: the same Array<T> object written several times
@@ -489,6 +529,28 @@ static std::string step1(const Toks& t)
 		setSlot((int)(num(t[1]) % NSLOT), t[2], blob);
 		return "ok";
 	}
+	if (op == "wd" && t.size() == 4) {
+		if (st.reading) return "closed";
+		int w = widthOf(t[2]);
+		if ((t[1] != "stack" && t[1] != "queue") || !w || !validHex(t[3])) return "bad-op";
+		std::string blob = unhex(t[3]);
+		if (blob.size() % w) return "bad-op";
+		if (st.kind == K_SB) return "na"; // StreamBuffer << derived-from-Array does not compile
+		argFault.clear();
+		if (st.kind == K_FILE) wDerived(*st.wf, t[1], t[2], blob); else wDerived(*st.ws, t[1], t[2], blob);
+		std::string o = observe();
+		return argFault.empty() ? o : argFault;
+	}
+	if (op == "wdsb" && t.size() == 2) {
+		if (st.reading) return "closed";
+		if (!validHex(t[1])) return "bad-op";
+		if (st.kind == K_SB) return "na";
+		std::string d = unhex(t[1]);
+		StreamBuffer o(ENDIAN_BIG);
+		o.write(d.data(), (int)d.size());
+		if (st.kind == K_FILE) *st.wf << (const StreamBuffer&)o; else *st.ws << (const StreamBuffer&)o;
+		return observe();
+	}
 	if (op == "wca" && t.size() == 2) {
 		if (st.reading) return "closed";
 		if (!validHex(t[1])) return "bad-op";
@@ -542,7 +604,7 @@ static std::string step1(const Toks& t)
 		if (!st.reading) return "ok error=" + str(st.ws->error());
 		return "ok error=" + str(st.rs->error()) + " available=" + str(st.rs->available());
 	}
-	bool isRead = op == "rsame" || op == "ra" || op == "rendian" || op == "r" || op == "rb" || op == "skip" || op == "rs";
+	bool isRead = op == "rd" || op == "rsame" || op == "ra" || op == "rendian" || op == "r" || op == "rb" || op == "skip" || op == "rs";
 	if (!isRead) return "bad-op";
 	if (!st.reading) return "not-reading";
 	size_t remaining = st.written.size() - st.pos;
@@ -566,6 +628,18 @@ static std::string step1(const Toks& t)
 		std::string r = st.kind == K_SB ? rScalar(*st.sbr, t[1]) : st.kind == K_FILE ? rScalar(*st.rf, t[1]) : rScalar(*st.rs, t[1]);
 		st.pos += w;
 		if (st.kind == K_SB && (size_t)st.sbr->length() != st.written.size() - st.pos) return "err reader-position";
+		return r;
+	}
+	if (op == "rd" && t.size() == 4) {
+		int w = widthOf(t[2]);
+		if ((t[1] != "stack" && t[1] != "queue") || !w || t[3].empty() || t[3].size() > 3) return "bad-op";
+		for (size_t i = 0; i < t[3].size(); i++) if (t[3][i] < '0' || t[3][i] > '9') return "bad-op";
+		int n = (int)num(t[3]);
+		if (st.kind == K_SB) return "na";
+		if (remaining < (size_t)n * w) return "eof";
+		if (t[2] == "b") for (int i = 0; i < n; i++) if ((byte)st.written[st.pos + i] > 1) return "na-bool";
+		std::string r = st.kind == K_FILE ? rDerived(*st.rf, t[1], t[2], n) : rDerived(*st.rs, t[1], t[2], n);
+		st.pos += (size_t)n * w;
 		return r;
 	}
 	if (op == "ra" && t.size() == 3) {
